@@ -221,43 +221,56 @@ Proof.
   - destruct (nth_error vlogs _); auto.
 Qed.
 
-Lemma read_value_at_np chk mode txlog vlogs vlen off hval :
-  vlogs_present mode vlogs -> np (read_value_at H chk mode txlog vlogs vlen off hval).
+Lemma value_check_np chk vlen hval b n : np (value_check H chk vlen hval b n).
+Proof. unfold value_check. match goal with |- np (if ?c then _ else _) => destruct c end; auto. Qed.
+
+Lemma raw_read_np mode txlog vlogs vlen off :
+  vlogs_present mode vlogs -> np (raw_read mode txlog vlogs vlen off).
+Proof.
+  intros K. unfold raw_read. apply np_bind; [apply fetch_vlog_np; exact K|].
+  intros log _. destruct (off_negative off); auto. apply read_at_np.
+Qed.
+
+Lemma read_value_at_np chk mode txlog vlogs c vlen off hval :
+  vlogs_present mode vlogs -> np (fst (read_value_at H chk mode txlog vlogs c vlen off hval)).
 Proof.
   intros K. unfold read_value_at.
-  match goal with |- np (if ?c then _ else _) => destruct c end; auto.
-  apply np_bind.
-  - destruct (0 <? vlen); auto.
-    apply np_bind; [apply fetch_vlog_np; exact K|].
-    intros log _. destruct (off_negative off); auto. apply read_at_np.
-  - intros b _. match goal with |- np (if ?c then _ else _) => destruct c end; auto.
+  match goal with |- np (fst (if ?c then _ else _)) => destruct c end; [cbn; auto|].
+  destruct (0 <? vlen); [|cbn [fst]; apply value_check_np].
+  destruct (cache_lookup c off); [cbn [fst]; apply value_check_np|].
+  pose proof (raw_read_np mode txlog vlogs vlen off K) as R.
+  destruct (raw_read mode txlog vlogs vlen off); cbn [fst]; auto. apply value_check_np.
 Qed.
 
 (* C09 "never crashes while reading", values: for EVERY value reference (any vLen, any vOff incl.
-   value-log ids the store does not have), any log contents and any MaxValueLen, ReadValue returns
-   a value or an error *)
-Theorem read_value_no_panic mvl mode txlog vlogs vlen off hval :
-  vlogs_present mode vlogs -> read_value H mvl mode txlog vlogs vlen off hval <> Panic.
+   value-log ids the store does not have), any log contents, any cache content and any
+   MaxValueLen, ReadValue returns a value or an error *)
+Theorem read_value_no_panic mvl mode txlog vlogs c vlen off hval :
+  vlogs_present mode vlogs -> fst (read_value H mvl mode txlog vlogs c vlen off hval) <> Panic.
 Proof.
-  intros K. change (np (read_value H mvl mode txlog vlogs vlen off hval)).
-  unfold read_value. destruct (vlen =? 0); auto. destruct (mvl <? vlen); auto.
+  intros K. change (np (fst (read_value H mvl mode txlog vlogs c vlen off hval))).
+  unfold read_value. destruct (vlen =? 0); [cbn; auto|]. destruct (mvl <? vlen); [cbn; auto|].
   apply read_value_at_np. exact K.
 Qed.
 
 Theorem export_values_no_panic chk mvl mode txlog vlogs :
-  vlogs_present mode vlogs -> forall es i trunc,
-  export_values H chk mvl mode txlog vlogs es i trunc <> Panic.
+  vlogs_present mode vlogs -> forall es c i trunc,
+  fst (export_values H chk mvl mode txlog vlogs c es i trunc) <> Panic.
 Proof.
-  intros K. induction es as [|e es IH]; intros i trunc; cbn [export_values]; [discriminate|].
-  destruct (mvl <? e_vlen e); [discriminate|].
-  pose proof (read_value_at_np chk mode txlog vlogs (e_vlen e) (e_voff e) (e_hval e) K) as R.
-  destruct (read_value_at H chk mode txlog vlogs (e_vlen e) (e_voff e) (e_hval e)) as [v|c|];
-    [| |exfalso; apply R; reflexivity].
-  - destruct trunc; [discriminate|].
-    apply (np_bind _ _ (IH (i + 1) false)). intros [t l] _. discriminate.
-  - destruct (c =? EEOF); [|discriminate].
-    destruct (negb trunc && (0 <? i)); [discriminate|].
-    apply (np_bind _ _ (IH (i + 1) true)). intros [t l] _. discriminate.
+  intros K. induction es as [|e es IH]; intros c i trunc; cbn [export_values]; [cbn; discriminate|].
+  destruct (mvl <? e_vlen e); [cbn; discriminate|].
+  pose proof (read_value_at_np chk mode txlog vlogs c (e_vlen e) (e_voff e) (e_hval e) K) as R.
+  destruct (read_value_at H chk mode txlog vlogs c (e_vlen e) (e_voff e) (e_hval e)) as [rv c1].
+  cbn [fst] in R. destruct rv as [v|code|]; [| |exfalso; apply R; reflexivity].
+  - destruct trunc; [cbn; discriminate|].
+    specialize (IH c1 (i + 1) false).
+    destruct (export_values H chk mvl mode txlog vlogs c1 es (i + 1) false) as [rr c2].
+    cbn [fst] in *. destruct rr as [[t l]| |]; try discriminate. congruence.
+  - destruct (code =? EEOF); [|cbn; discriminate].
+    destruct (negb trunc && (0 <? i)); [cbn; discriminate|].
+    specialize (IH c1 (i + 1) true).
+    destruct (export_values H chk mvl mode txlog vlogs c1 es (i + 1) true) as [rr c2].
+    cbn [fst] in *. destruct rr as [[t l]| |]; try discriminate. congruence.
 Qed.
 
 End Hash.
